@@ -19,7 +19,7 @@ import time
 from typing import Any, Callable, Optional
 
 from .. import catalogue, fingerprint
-from ..harness import ROOT, Run, pmap, rotate, NCPU
+from ..harness import ROOT, Run, pmap, rotate, NCPU, time_limit, CaseTimeout
 
 PROPERTY = "C03"
 LEVEL = "model_checking"
@@ -276,9 +276,134 @@ def _catalogue_item(order: str) -> dict:
     return res
 
 
+# ---- histories of the arguments: a result must not depend on the generated names of its arguments ---
+
+ARG_BOUNDS = [100, 1000, 10000, 100000]
+ARG_TUPLES = ("default", "zero-first", "zero-second")
+
+
+def _special_args(params: list, tname: str) -> Optional[dict]:
+    """argument tuples: the default one; the first (second) quantity a dimensionful zero and the
+    other quantities negative.  Created now: the quantities take the next generated names."""
+    from symplyphysics import Quantity
+    from .. import args as A
+    if tname == "default":
+        return A.call_args(params)
+    qs = [p for p in params if p.kind == "quantity" and p.dim is not None and not
+        p.dim.dimensionless]
+    idx = 0 if tname == "zero-first" else 1
+    if len(qs) <= idx or len(qs) < 2:
+        return None
+    kw = {}
+    for p in params:
+        if p.kind in ("default", "free"):
+            continue
+        if p is qs[idx]:
+            kw[p.name] = Quantity(0, dimension=_dimension_of(p))
+        elif p.kind == "quantity" and p in qs:
+            kw[p.name] = A.realise_param(p, -1.0)
+        else:
+            kw[p.name] = A.realise_param(p)
+    return kw
+
+
+def _dimension_of(p: Any) -> Any:
+    import sympy as sp
+    from sympy.physics.units import Dimension
+    from sympy.physics import units as U
+    e = Dimension(1)
+    for b, x in p.dim.e.items():
+        e = e * getattr(U, b)**sp.Rational(x.numerator, x.denominator)
+    return e
+
+
+def child_args(modname: str, j: int, start: int) -> list:
+    """in a forked child: import the module; for up to four (function, tuple) pairs from `start`:
+    result with the arguments created now, then the quantity counter is advanced to just below
+    the next digit boundary (boundary - j) and the same arguments are created and passed again"""
+    from symplyphysics.core.symbols import id_generator as G
+    from .. import args as A
+    from .c02 import si_struct
+    mod = catalogue.load(modname)
+    pairs = []
+    for fname, fn in sorted(catalogue.functions(mod)):
+        sp_ = catalogue.spec(fn)
+        if not (sp_["decorated"] or fname.startswith("calculate_")):
+            continue
+        params, why = A.plan(fn, mod)
+        if why or (any(p.kind == "free" for p in params) and not A.resolve_free(fn, params, mod)):
+            continue
+        for t in ARG_TUPLES:
+            pairs.append((fname, fn, params, t))
+    out = []
+
+    def call(fn: Any, kw: dict) -> str:
+        try:
+            with time_limit(20):
+                return fingerprint._round(si_struct(fn(**kw)))
+        except CaseTimeout:
+            return "timeout"
+        except Exception as ex:  # pylint: disable=broad-except
+            return f"raises {type(ex).__name__}"
+
+    for slot, (fname, fn, params, t) in enumerate(pairs[start:start + len(ARG_BOUNDS)]):
+        kw = _special_args(params, t)
+        if kw is None:
+            continue
+        before = call(fn, kw)
+        target = ARG_BOUNDS[slot] - j
+        cur = counters()["QTY"]
+        if cur >= target:
+            continue
+        while cur < target:
+            cur = G.next_id("QTY")
+        kw2 = _special_args(params, t)
+        after = call(fn, kw2)
+        out.append((fname, t, ARG_BOUNDS[slot], before, after))
+    return [len(pairs)] + out
+
+
+def _args_shard(mods: list[str]) -> dict:
+    res: dict[str, Any] = {"n": 0, "keys": [], "outcomes": {}, "violations": [], "undecided": [],
+        "samples": [], "states": 0, "transitions": 0, "traces": 0}
+    for modname in mods:
+        base = _BASELINE.get(modname)
+        if base is None or "error" in base or not any(k.startswith("fn:") for k in base["fp"]):
+            continue
+        for j in (2, 3):
+            start, total = 0, 1
+            while start < total:
+                got = in_child(lambda: child_args(modname, j, start), timeout=300)
+                if isinstance(got, dict):
+                    res["undecided"].append((f"{modname}@args", got.get("error", "?")))
+                    break
+                total = got[0]
+                for fname, t, b, before, after in got[1:]:
+                    res["n"] += 1
+                    res["states"] += 1
+                    res["transitions"] += 2
+                    res["traces"] += 1
+                    key = f"{modname}.{fname}@args:{t}:{b}-{j}"
+                    res["keys"].append(key)
+                    same = before == after or "timeout" in (before, after) or \
+                        fingerprint._close_str(before, after)
+                    res["outcomes"]["args-same" if same else "args-differ"] = res["outcomes"].get(
+                        "args-same" if same else "args-differ", 0) + 1
+                    if not same:
+                        res["violations"].append((f"{modname}.{fname}:argument-names", f"the same "
+                            f"arguments ({t}) give {before} when created at low counters and {after} "
+                            f"when their generated names straddle QTY{b} (counter at {b} - {j})",
+                            {"module": modname, "mode": "args", "offset": j, "functions": True,
+                            "seed": os.environ.get("PYTHONHASHSEED", "")}))
+                start += len(ARG_BOUNDS)
+    return res
+
+
 def _dispatch(item: tuple) -> dict:
     if item[0] == "catalogue":
         return _catalogue_item(item[1])
+    if item[0] == "args":
+        return _args_shard(item[1])
     return _shard(item)
 
 
@@ -324,6 +449,10 @@ def plan_jobs(mods: list[str], thorough: bool, seed_pass: bool) -> list[tuple]:
     if not seed_pass:
         items.append(("catalogue", "alphabetical"))
         items.append(("catalogue", "reverse"))
+        for i in range(nshards * 2):
+            part = mods[i::nshards * 2]
+            if part:
+                items.append(("args", part))
     return items
 
 
@@ -405,7 +534,9 @@ def main(run: Run) -> int:
         "dependency imported first"] if run.thorough else []))
     return run.finish(
         rule="state = (module, history); histories: default, counter offsets (digit boundaries and "
-        "name-order classes), whole-catalogue alphabetical / reverse imports, hash seeds"
+        "name-order classes), whole-catalogue alphabetical / reverse imports, hash seeds, argument "
+        "tuples (default, dimensionful zero first / second with negative partners) whose generated "
+        "names straddle a digit boundary"
         + (", single-prefix bumps, dependency-first imports, per-module break-point offsets" if
         run.thorough else "") + "; every history is executed on the real interpreter state in a "
         "forked child; distinct = distinct (module, history) pairs",
